@@ -19,6 +19,7 @@ from verus_run import verus, locate, obligation_id
 C01_KEYS = ('lp(', 'ext(', 'extd(', 'wf()', 'wf_ev()', 'depth(', 'open_at(', 'handed(', 'mark_ok(', 'is_open(', 'events',
             'tokens_raw', 'src@', 'n_adv', 'nested', '.index', 'tokens@ ==', 'rooted(', 'inroot(', 'btoks(', 'bdepth(', 'binside(',
             'single_root(', 'is_trivia_spec(', 'n_real(', 'push_toks(', 'raw_prefix(', 'bt_pre(', 'builder@')
+BT_KEYS = ('btoks(', 'bdepth(', 'binside(', 'single_root(', 'is_trivia_spec(', 'n_real(', 'push_toks(', 'raw_prefix(', 'bt_pre(', 'builder@')
 C02_KEYS = ('fuel', 'prog(', '.pos', 'cur()', 'kidx(', 'rem()', 'is Some', 'is None', 'has(', '_spec(', 'MAX_DEPTH', '.depth',
             'seq_has', 'bit(', 'handed(', 'wf()', 'wf_tok()', 'kind !=', 'tokens.len()', 'tokens@.len()')
 C02_MSGS = ('could not prove termination', 'decreases not satisfied', 'possible arithmetic', 'possible bit shift',
@@ -36,6 +37,8 @@ def classify(f):
         # postcondition / invariant / assertion: the primary span is the failed clause itself
         texts = [f['site']]
     t = ' '.join(texts)
+    if any(k in t for k in BT_KEYS) and not props:
+        return {'C01'}   # tree-builder vocabulary: losslessness only
     if 'assert!' in f['site'] or 'panic!' in f['site']:
         props.add('C02')
     if any(k in t for k in C01_KEYS):
